@@ -15,6 +15,7 @@ import (
 	"strconv"
 	"strings"
 	"sync"
+	"syscall"
 	"time"
 )
 
@@ -62,7 +63,14 @@ var ExitAfterResponse func() bool
 // WorkerMain is the loop of a worker process: one JSON request per line on stdin, one response per line on stdout.
 func WorkerMain(exec ExecFunc) {
 	in := bufio.NewReaderSize(os.Stdin, 1<<20)
-	out := bufio.NewWriter(os.Stdout)
+	// the code under test prints to stdout in places (fmt.Println in error paths): keep the protocol on a private
+	// duplicate of the descriptor and point fd 1 at stderr
+	proto := os.Stdout
+	if fd, err := syscall.Dup(1); err == nil {
+		proto = os.NewFile(uintptr(fd), "protocol")
+		syscall.Dup2(2, 1)
+	}
+	out := bufio.NewWriter(proto)
 	for {
 		line, err := in.ReadBytes('\n')
 		if len(line) > 0 {
@@ -89,11 +97,11 @@ func WorkerMain(exec ExecFunc) {
 
 type worker struct {
 	cleanExit bool
-	cmd   *exec.Cmd
-	in    io.WriteCloser
-	out   *bufio.Reader
-	errb  *tailBuf
-	alive bool
+	cmd       *exec.Cmd
+	in        io.WriteCloser
+	out       *bufio.Reader
+	errb      *tailBuf
+	alive     bool
 }
 
 type tailBuf struct {
